@@ -96,6 +96,7 @@ func AppendSnapshot(b []byte, s *slip.Scope) []byte {
 	b = appendSnapshotPackages(b, s)
 	b = appendSnapshotConstants(b, s)
 	b = appendSnapshotFlavors(b, s)
+	b = appendSnapshotClasses(b, s)
 	b = appendSnapshotVars(b, s)
 	b = appendSnapshotFunctions(b, s)
 
@@ -261,6 +262,46 @@ func appendSnapshotFlavors(b []byte, s *slip.Scope) []byte {
 				}
 			}
 		}
+	}
+	return b
+}
+
+func appendSnapshotClasses(b []byte, s *slip.Scope) []byte {
+	// The classes and conditions defined with defclass and define-condition
+	// in packages that are not locked or imported.
+	var ca []slip.Class
+	for _, p := range slip.AllPackages() {
+		if isCorePackage(p) {
+			continue
+		}
+		p.EachClass(func(c slip.Class) {
+			if fc, ok := c.(interface{ IsFinal() bool }); ok && fc.IsFinal() {
+				return // built in, not defined by the user
+			}
+			if c.Pkg() == p {
+				switch c.Metaclass() {
+				case slip.Symbol("standard-class"), slip.Symbol("condition-class"):
+					ca = append(ca, c)
+				}
+			}
+		})
+	}
+	// A class inherits strictly more classes than any class it inherits so
+	// ordering by that count, then by name, places every class after its
+	// superclasses.
+	sort.Slice(ca, func(i, j int) bool {
+		ni, nj := len(ca[i].InheritsList()), len(ca[j].InheritsList())
+		if ni != nj {
+			return ni < nj
+		}
+		if ca[i].Pkg().Name != ca[j].Pkg().Name {
+			return ca[i].Pkg().Name < ca[j].Pkg().Name
+		}
+		return ca[i].Name() < ca[j].Name()
+	})
+	for _, c := range ca {
+		b = append(b, '\n')
+		b = pp.Append(b, s, c.LoadForm())
 	}
 	return b
 }
